@@ -1,6 +1,7 @@
 package main
 
 import (
+	"os/exec"
 	"encoding/json"
 	"fmt"
 	"os"
@@ -121,7 +122,29 @@ func writeEvidence(s *session, results []*sym.EntryResult, wall float64, inconcl
 	os.WriteFile(filepath.Join(verif, "evidence", h.Property+".json"), b, 0o644)
 }
 
-func cmdIntenc(args []string) int {
-	fmt.Println("intenc: not built yet")
-	return 2
+
+// replayTestSource runs a recorded generated test (C24 replays) against /repo.
+func replayTestSource(verif, repo, pkgRel, src string) int {
+	work := filepath.Join(verif, ".work", "C24", "replay-cmd")
+	os.MkdirAll(work, 0o755)
+	tf := filepath.Join(work, "zz_verif_c24_replay_test.go")
+	os.WriteFile(tf, []byte(src), 0o644)
+	repl := map[string]string{filepath.Join(repo, pkgRel, "zz_verif_c24_replay_test.go"): tf}
+	for _, e := range []string{"internal/core/VERSION", "internal/servers/hls/hls.min.js"} {
+		if _, err := os.Stat(filepath.Join(repo, e)); err != nil {
+			repl[filepath.Join(repo, e)] = filepath.Join(verif, "embed", filepath.Base(e))
+		}
+	}
+	ovb, _ := json.Marshal(map[string]interface{}{"Replace": repl})
+	ovf := filepath.Join(work, "overlay.json")
+	os.WriteFile(ovf, ovb, 0o644)
+	cmd := exec.Command("go", "test", "-vet=off", "-count=1", "-run", "^TestVerifC24Replay$", "-v", "-overlay", ovf, "./"+pkgRel)
+	cmd.Dir = repo
+	cmd.Env = sym.GoEnv()
+	out, _ := cmd.CombinedOutput()
+	fmt.Print(string(out))
+	if strings.Contains(string(out), "VERIF-C24 MISMATCH") || strings.Contains(string(out), "panic:") {
+		return 1
+	}
+	return 0
 }
